@@ -289,9 +289,9 @@ class Run:
                 "obligation_list": [{"name": o[0], "backend": o[1], "ok": o[2], "seconds": round(o[3], 4)} for o in self.obligations],
                 "bounded": self.bounded,
                 "backends": self.backends,
-                "samples": self.samples[:8] or [o[0] for o in self.obligations[:5]],
-                "evaluations": max(1, nob + len(self.bounded)),
-                "distinct_nontrivial": max(2, ndis) if nob else 0,
+                "samples": self.samples[:8] or ([o[0] for o in self.obligations[:5]] + [b for b in self.bounded[:3]]),
+                "evaluations": max(1, nob + sum(b.get("checks", 1) for b in self.bounded)),
+                "distinct_nontrivial": ndis + len([b for b in self.bounded if b.get("ok")]),
                 "rule": "one obligation = one function's full set of verification conditions accepted by Verus (per-function SMT query), "
                         "or one Kani harness; bounded harnesses are listed under `bounded` and not counted as discharged",
                 "explanation": cfg.get("explanation", ""),
@@ -315,6 +315,185 @@ class Run:
             return 2
         print("OK property=%s obligations=%d discharged=%d bounded=%d wall=%.1fs" % (self.pid, nob, ndis, len(self.bounded), wall))
         return 0
+
+
+# ======================================================================== Kani (bounded stand-ins / counterexamples)
+KANI_MEM_KB = 24 * 1024 * 1024      # per-process address-space cap (a runaway CBMC must not take the machine down)
+KANI_UNDECIDED_PATTERNS = ["unwinding assertion", "is not currently supported by Kani", "unsupported_construct",
+                           "recursion unwinding", "memory", "out of memory"]
+
+
+def kani_crate(run):
+    """scratch copy of the harness crate whose path-deps point at the tree being checked"""
+    import hashlib
+    tag = hashlib.sha1(os.path.abspath(run.repo).encode()).hexdigest()[:10]
+    d = os.path.join(run.root, "build", "kh-" + tag)
+    os.makedirs(d, exist_ok=True)
+    toml = open(os.path.join(run.root, "kani", "Cargo.toml.in")).read().replace("@REPO@", os.path.abspath(run.repo))
+    tp = os.path.join(d, "Cargo.toml")
+    if not os.path.exists(tp) or open(tp).read() != toml:
+        open(tp, "w").write(toml)
+    src = os.path.join(d, "src")
+    if os.path.islink(src) or os.path.exists(src):
+        if not os.path.islink(src) or os.readlink(src) != os.path.join(run.root, "kani", "src"):
+            if os.path.islink(src):
+                os.unlink(src)
+            else:
+                shutil.rmtree(src)
+    if not os.path.exists(src):
+        os.symlink(os.path.join(run.root, "kani", "src"), src)
+    lock = os.path.join(run.repo, "Cargo.lock")
+    if os.path.exists(lock):
+        shutil.copy(lock, os.path.join(d, "Cargo.lock"))
+    return d
+
+
+def kani_cmd(args, cwd, timeout):
+    """cargo kani under an address-space limit and a wall-clock limit"""
+    cmd = "ulimit -v %d; exec cargo kani %s" % (KANI_MEM_KB, " ".join(args))
+    return sh(["bash", "-c", cmd], cwd=cwd, timeout=timeout)
+
+
+def parse_terse(out):
+    """per-harness summary of a `-j N --output-format terse` run"""
+    res, cur_by_thread, cur = {}, {}, None
+    for l in out.split("\n"):
+        m = re.match(r"\s*(?:Thread (\d+): )?Checking harness (\S+?)\.\.\.", l)
+        if m:
+            cur_by_thread[m.group(1) or "0"] = m.group(2)
+            cur = m.group(2)
+            res.setdefault(cur, {"failed": None, "checks": 0, "covers": (0, 0), "status": None, "fail_desc": [], "time": 0.0})
+            continue
+        m = re.match(r"\s*Thread (\d+):\s*$", l)
+        if m:
+            cur = cur_by_thread.get(m.group(1))
+            continue
+        if cur is None:
+            continue
+        r = res[cur]
+        m = re.search(r"\*\* (\d+) of (\d+) failed", l)
+        if m:
+            r["failed"], r["checks"] = int(m.group(1)), int(m.group(2))
+        m = re.search(r"\*\* (\d+) of (\d+) cover properties satisfied", l)
+        if m:
+            r["covers"] = (int(m.group(1)), int(m.group(2)))
+        m = re.match(r"\s*Failed Checks: (.*)$", l)
+        if m:
+            r["fail_desc"].append(m.group(1).strip())
+        m = re.search(r"VERIFICATION:- (\w+)", l)
+        if m:
+            r["status"] = m.group(1)
+        m = re.search(r"Verification Time: ([0-9.]+)s", l)
+        if m:
+            r["time"] = float(m.group(1))
+    return res
+
+
+def parse_regular(out):
+    """checks of a single-harness regular-format run: list of (name, status, description, location)"""
+    checks = []
+    for m in re.finditer(r"Check \d+: (.+)\n\s*- Status: (\w+)\n\s*- Description: \"(.*?)\"\n\s*- Location: (.*)", out):
+        checks.append((m.group(1), m.group(2), m.group(3), m.group(4).strip()))
+    tapes = {}
+    for m in re.finditer(r"Check for `(\w+)`: \"(.*?)\"\s*\n#\[test\]\nfn \w+\(\) \{\n\s*let concrete_vals: Vec<Vec<u8>> = vec!\[(.*?)\n\s*\];", out, re.S):
+        vals = []
+        for vm in re.finditer(r"vec!\[([0-9, ]*)\]", m.group(3)):
+            vals.append([int(x) for x in vm.group(1).replace(" ", "").split(",") if x])
+        tapes.setdefault((m.group(1), m.group(2)), []).append(vals)
+    return checks, tapes
+
+
+def run_kani_property(run, cfg):
+    hs = [h for h in cfg["kani"] if run.tier == "thorough" or h.get("tier", "quick") == "quick"]
+    if not hs:
+        return None
+    d = kani_crate(run)
+    names = [h["name"] for h in hs]
+    args = ["--lib", "--exact", "-Z", "stubbing"] + sum([["--harness", n] for n in names], []) + ["-j", "16", "--output-format", "terse"]
+    rc, so, se, wall = kani_cmd(args, d, cfg.get("kani_timeout", 3000))
+    open(os.path.join(run.build, "kani.terse.txt"), "w").write(so + "\n-----\n" + se)
+    if rc == 124:
+        return "kani timed out"
+    if "error: could not compile" in se or "error[E" in se:
+        raise Undecided("the harness crate does not compile against this tree (API drift?):\n" + "\n".join(
+            l for l in se.split("\n") if l.startswith("error"))[:1500])
+    res = parse_terse(so)
+    run.backends.setdefault("kani/cbmc", {"version": "kani 0.68.0 / cbmc 6.11 (cadical)", "solver_seconds": 0.0, "wall_seconds": 0.0})
+    run.backends["kani/cbmc"]["wall_seconds"] += wall
+    undecided = None
+    for h in hs:
+        n = h["name"]
+        r = res.get(n)
+        if r is None or r["status"] is None:
+            undecided = undecided or ("kani produced no result for harness %s (out of memory / crashed?)" % n)
+            continue
+        run.backends["kani/cbmc"]["solver_seconds"] += r["time"]
+        ok = r["status"] == "SUCCESSFUL" and r["covers"][0] == r["covers"][1]
+        if r["covers"][1] < h.get("min_covers", 1):
+            undecided = undecided or ("vacuity guard: harness %s has %d cover properties, expected at least %d" % (n, r["covers"][1], h.get("min_covers", 1)))
+        entry = {"harness": n, "bound": h["bound"], "complete": bool(h.get("complete")), "checks": r["checks"],
+                 "covers_satisfied": "%d/%d" % r["covers"], "ok": ok, "seconds": r["time"], "what": h.get("what", "")}
+        if h.get("complete"):
+            run.obligations.append((n + " [complete: loop-free, full-domain]", "kani/cbmc", ok, r["time"]))
+        run.bounded.append(entry)
+        if ok:
+            continue
+        # ---- details + counterexample for this harness
+        rc2, so2, se2, w2 = kani_cmd(["--lib", "--exact", "-Z", "stubbing", "--harness", n, "-Z", "concrete-playback", "--concrete-playback=print"],
+                                     d, cfg.get("kani_timeout", 3000))
+        open(os.path.join(run.build, "kani.%s.txt" % n.replace(":", "_")), "w").write(so2 + "\n-----\n" + se2)
+        checks, tapes = parse_regular(so2)
+        bad = [c for c in checks if c[1] == "FAILURE"] + [c for c in checks if c[0].split(".")[-2:-1] == ["cover"] and c[1] in ("UNSATISFIABLE", "UNREACHABLE")]
+        if not bad:
+            undecided = undecided or ("harness %s failed but no failing check could be parsed" % n)
+            continue
+        seen = set()
+        for (cname, status, desc, loc) in bad:
+            if any(p in desc or p in cname for p in KANI_UNDECIDED_PATTERNS) and not h.get("entropy_guard"):
+                undecided = undecided or ("harness %s: %s (%s) — tool limit, not a verdict" % (n, desc, cname))
+                continue
+            mine = "/kani/src/" in loc or loc.startswith("src/")
+            if status == "FAILURE":
+                ob = ("%s@%s" % (desc, n)) if mine else ("no-panic[%s]@%s" % (re.sub(r".*in function ", "", loc), n))
+            else:
+                ob = "can-occur[%s]@%s" % (desc, n)
+            ob = re.sub(r"\s+", "-", ob)
+            if ob in seen:
+                continue
+            seen.add(ob)
+            cands = tapes.get(("assertion", desc), []) if status == "FAILURE" else []
+            failing_input, replay_cmd, detail = None, None, "%s\n  status: %s\n  location: %s" % (desc, status, loc)
+            want = None if not mine else desc
+            for tape in cands:
+                # several failing checks may share one (placeholder) description: take the first tape that reproduces
+                rp = replay_tape(run, d, n, tape)
+                if rp["reproduced"] and (want is None or want in rp["output"]):
+                    detail += "\n" + rp["output"]
+                    failing_input = {"harness": n, "kani_values": tape, "replay_output": rp["output"]}
+                    replay_cmd = rp["cmd"]
+                    break
+            if cands and not failing_input:
+                detail += "\n(no Kani counterexample reproduced the failure under replay)"
+            run.report_failure(ob, desc if status == "FAILURE" else "required reachability witness is " + status, detail,
+                               failing_input=failing_input, replay_cmd=replay_cmd)
+    return undecided
+
+
+def replay_tape(run, d, harness, tape):
+    """run the harness body on the concrete values, on the ordinary toolchain against the real crates"""
+    rc, so, se, _ = sh(["cargo", "build", "--offline", "--bin", "kh-replay"], cwd=d, timeout=1200)
+    if rc != 0:
+        return {"reproduced": False, "output": "replay binary did not build: " + se[-600:], "cmd": None}
+    os.makedirs(os.path.join(run.root, "replays"), exist_ok=True)
+    import hashlib
+    body = harness.split("::")[-1]
+    body = body[2:] if body.startswith("p_") else body
+    tp = os.path.join(run.root, "replays", "%s-%s-%s.tape.json" % (run.pid, body, hashlib.sha1(json.dumps(tape).encode()).hexdigest()[:8]))
+    json.dump(tape, open(tp, "w"))
+    exe = os.path.join(d, "target", "debug", "kh-replay")
+    rc, so, se, _ = sh([exe, body, tp], timeout=120, env={"RUST_BACKTRACE": "0"})
+    cmd = "cd %s && cargo build --offline --bin kh-replay 2>/dev/null; %s %s %s" % (d, exe, body, tp)
+    return {"reproduced": rc == 1, "output": (so + se)[-1500:], "cmd": cmd}
 
 
 def run_verus_property(run, cfg):
